@@ -27,7 +27,7 @@ import spec as specmod  # noqa: E402
 
 REPO = os.environ.get('VERIF_REPO', '/repo')
 BUILD = os.path.join(ROOT, 'build')
-DEFS = ['DBGROUP_MAX_THREAD_NUM=32', 'CPP_UTILITY_SPINLOCK_RETRY_NUM=10', 'CPP_UTILITY_BACKOFF_TIME=10',
+DEFS = ['DBGROUP_MAX_THREAD_NUM=7919', 'CPP_UTILITY_SPINLOCK_RETRY_NUM=10', 'CPP_UTILITY_BACKOFF_TIME=10',
         'CPP_UTILITY_HAS_SPINLOCK_HINT']
 CBMC_CHECKS = ['--bounds-check', '--pointer-check', '--signed-overflow-check', '--unsigned-overflow-check',
                '--conversion-check', '--div-by-zero-check', '--pointer-overflow-check']
